@@ -20,7 +20,9 @@ META = {
             "characters '/', '.', 'a' (29 524 / 2 391 484 strings), fed to the real canonicalize(); the result "
             "must be absolute, contain no '.' or '..' component, and root + result must stay lexically inside "
             "root (root-independent walk on every input; concrete roots '/srv/r', '/srv/r/', '/' with an os.path "
-            "second opinion on every 8th).",
+            "second opinion on every 8th).  Plus [protocol entry point] every concatenation of <=5 / <=6 tokens sent as "
+            "an SSH_FXP_REALPATH request through the real SFTPServer request loop (raw packets): exactly one NAME "
+            "answer, whose name gets the same verdict and equals canonicalize(path).",
     "note": "POSIX path semantics (sys.platform != win32); str paths only (the server passes get_text() "
             "results); symlinks are out of scope (lexical containment, as in the statement)",
     "design_ref": "4/C34",
@@ -40,6 +42,11 @@ def judge(path, deep=True):
         out = SI.canonicalize(path)
     except Exception as e:
         return "exception-" + type(e).__name__, {"error": repr(e)}
+    return judge_out(out, deep)
+
+
+def judge_out(out, deep=True):
+    """The lexical verdict on one canonicalised result."""
     if type(out) is not str or out[:1] != "/":
         return "result-not-absolute", {"result": out}
     comps = out.split("/")
@@ -121,6 +128,51 @@ def work(item, acc):
     acc.count("token_sequences" if kind.startswith("tokens") else "char_strings", k)
 
 
+# ------------------------------------------------------------------ the protocol entry point (CMD_REALPATH)
+# What a client actually gets is the server's answer to SSH_FXP_REALPATH: the real SFTPServer request loop
+# (vmc.sftp_raw.run_session: raw packets in, raw packets out, no threads) is fed one REALPATH request per
+# path and the name in each CMD_NAME answer gets the same lexical verdict - and must be exactly what
+# canonicalize() returns for that path (the handler may not have a normalisation of its own).
+REALPATH_BATCH = 400
+
+
+def realpath_work(item, acc):
+    import struct
+    import tempfile
+    from vmc import sftp_raw as R
+    _, prefix, maxlen = item
+    head = "".join(prefix)
+    paths = [head + "".join(t) for n in range(0, maxlen - len(prefix) + 1) for t in itertools.product(TOKENS, repeat=n)]
+    root = tempfile.mkdtemp(prefix="c34-", dir="/dev/shm")
+    try:
+        for b in range(0, len(paths), REALPATH_BATCH):
+            batch = paths[b:b + REALPATH_BATCH]
+            ses = R.run_session(root, [R.request(16, 100 + i, R.sstr(p.encode())) for i, p in enumerate(batch)])
+            for i, p in enumerate(batch):
+                acc.ev()
+                acc.count("realpath_requests")
+                resp = ses.responses[i + 1] if i + 1 < len(ses.responses) else []
+                rep = {"realpath": p}
+                if len(resp) != 1 or resp[0][0] != 104:
+                    acc.violation("realpath-not-answered-with-one-name:SFTPServer.CMD_REALPATH:%s" % input_class(p),
+                                  {"input": p, "responses": [(t, bytes(bd[:40]).hex()) for t, bd in resp]}, rep)
+                    continue
+                body = resp[0][1]
+                rid, cnt, ln = struct.unpack(">III", body[:12])
+                name = body[12:12 + ln].decode()
+                comps = p.split("/")
+                if (not p.startswith("/")) or ("." in comps) or (".." in comps) or ("" in comps[1:]):
+                    acc.nt(("realpath",) + signature(p))
+                bad = judge_out(name, (i & 7) == 0)
+                if bad is None and (rid != 100 + i or cnt != 1 or name != SI.canonicalize(p)):
+                    bad = ("answer-differs-from-canonicalize", {"result": name, "canonicalize": SI.canonicalize(p)})
+                if bad is not None:
+                    acc.violation("%s:SFTPServer.CMD_REALPATH:%s" % (bad[0], input_class(p)), {"input": p, **bad[1]}, rep)
+    finally:
+        import shutil
+        shutil.rmtree(root, ignore_errors=True)
+
+
 def plan(tier):
     ntok, nchar = (6, 9) if tier == "quick" else (8, 13)
     items = [("tokens-short", (), 1)]
@@ -146,11 +198,28 @@ def main(tier):
         raise RuntimeError("C34 harness assumes a POSIX platform")
     items, ntok, nchar = plan(tier)
     ck.merge(core.pmap(items, work))
+    rp = [("realpath", p, 5 if tier == "quick" else 6) for p in itertools.product(TOKENS, repeat=2)]
+    rp += [("realpath", p, len(p)) for n in range(0, 2) for p in itertools.product(TOKENS, repeat=n)]
+    ck.merge(core.pmap(rp, realpath_work))
     ck.extra["bound"] = {"max_tokens": ntok, "max_chars": nchar, "tokens": TOKENS, "chars": CHARS, "roots": ROOTS}
     return ck.finish()
 
 
 def replay(rec):
+    if "realpath" in rec["replay"]:
+        import struct
+        from vmc import sftp_raw as R
+        p = rec["replay"]["realpath"]
+        ses = R.run_session("/dev/shm", [R.request(16, 7, R.sstr(p.encode()))])
+        resp = ses.responses[1]
+        print("input:", repr(p), "responses:", [(t, bytes(b)[:60]) for t, b in resp])
+        if len(resp) != 1 or resp[0][0] != 104:
+            return 1
+        ln = struct.unpack(">I", resp[0][1][8:12])[0]
+        name = resp[0][1][12:12 + ln].decode()
+        bad = judge_out(name) or (("answer-differs-from-canonicalize", name) if name != SI.canonicalize(p) else None)
+        print("REALPATH ->", repr(name), "canonicalize ->", repr(SI.canonicalize(p)), "verdict:", bad or "ok")
+        return 1 if bad else 0
     path = rec["replay"]["path"]
     print("input:", repr(path))
     try:
